@@ -56,6 +56,7 @@ type Task struct {
 	// lockDepth counts the mutexes this task holds in auto-instrumented files (auto.locked/auto.unlocked
 	// marks): while it is positive the task is preempted only at lock acquisitions, never at plain yields
 	lockDepth   int
+	stopAtLock  bool // contention mode: preempt this task right after its next lock acquisition
 	pendingDrop bool
 	wokeAt      time.Duration // simulated instant at which the last real blocking operation fired
 	fn          func(*Task)
@@ -165,6 +166,8 @@ type Sim struct {
 	RecPoints  []string // hook points whose passage is recorded as a history event
 	cancels    []context.CancelFunc
 	endSync    int64
+	contender  *Task // a task about to call TryLock/TryRLock for which another task is being made to hold a lock
+	contendGo  bool  // the lock is held now: the contender runs next
 	gates      []string
 	hookCount  int
 	pctPoints  []int
@@ -496,8 +499,30 @@ func (s *Sim) Yield(point string, obj interface{}) {
 		return
 	}
 	switch point {
+	case "auto.trylock":
+		// Code that uses TryLock behaves differently when somebody holds the lock at that instant. Tasks are
+		// normally never preempted inside a critical section, so that state would never arise: now and then
+		// park this task, let another one run up to its next lock acquisition, stop it there (holding the
+		// lock) and come back.
+		s.Points.Add(point, 1)
+		if s.contender == nil && len(s.tasks) > 1 && s.tape.Chance(LaneSched, 1, 3) {
+			s.contender = t
+			s.contendGo = false
+			s.preempt(t, point)
+			s.contender = nil
+			s.contendGo = false
+			for _, c := range s.tasks {
+				c.stopAtLock = false
+			}
+		}
+		return
 	case "auto.locked":
 		t.lockDepth++
+		if t.stopAtLock {
+			t.stopAtLock = false
+			s.contendGo = true
+			s.preempt(t, "auto.locked#held-for-a-trylock")
+		}
 		return
 	case "auto.unlocked":
 		if t.lockDepth > 0 {
@@ -891,7 +916,45 @@ func (s *Sim) Run() {
 			}
 		}
 		var t *Task
-		if s.cfg.PCTDepth > 0 {
+		if s.contender != nil {
+			// contention mode (see "auto.trylock")
+			if s.contendGo {
+				for _, c := range enabled {
+					if c == s.contender {
+						t = c
+					}
+				}
+			} else {
+				var others []*Task
+				for _, c := range cands {
+					if c != s.contender {
+						others = append(others, c)
+					}
+				}
+				if len(others) > 0 {
+					t = others[s.tape.Draw(LaneSched, len(others))]
+					t.stopAtLock = true
+				}
+			}
+			if t == nil {
+				// nobody else can run (or the contender is not enabled): give up on it
+				for _, c := range s.tasks {
+					c.stopAtLock = false
+				}
+				s.contendGo = true
+				for _, c := range enabled {
+					if c == s.contender {
+						t = c
+					}
+				}
+			}
+			if t != nil {
+				t.quantum = 0
+			}
+		}
+		if t != nil {
+			// chosen above
+		} else if s.cfg.PCTDepth > 0 {
 			t = cands[0]
 			for _, c := range cands[1:] {
 				if c.prio > t.prio {
